@@ -377,6 +377,15 @@ macro_rules! k_encode_fixed {
                 i += 1;
             }
             vk_assert!(G_WR_LEN.load(Relaxed) == $n - k, "one residual per predicted sample");
+            // C19, constant-block clause: a block of equal samples is predicted exactly by FIXED order >= 1, so every residual
+            // handed to the residual coder is zero (which the coder stores as one zero-width escape partition)
+            let mut constant = $n >= 2;
+            let mut i = 1;
+            while i < $n { constant = constant && xs[i] == xs[0]; i += 1; }
+            if constant {
+                let mut i = 0;
+                while i < $n - k { vk_assert!(G_WR_RES[i].load(Relaxed) == 0, "a constant block must reach the residual coder as all-zero residuals (FIXED order >= 1 predicts it exactly)"); i += 1; }
+            }
             let c = specenc::fixed_coeffs(k);
             let mut i = k;
             while i < $n {
@@ -895,6 +904,61 @@ pub(crate) fn k_encoder_finalize_noseektable() {
     vk_assert!(again_ok && G_F_SEEKS.load(Relaxed) <= 1 && G_F_WRITES.load(Relaxed) <= 1, "finalizing twice is a no-op");
 }
 
+// ------------------------------------------------------------------ Encoder::finalize_inner: a failing rewrite is reported (C13)
+// contract: if repositioning fails, or the sink rejects the rewritten metadata, finalize_inner returns the I/O error --
+// it never reports success for a header that was not rewritten.  The metadata writer is replaced by "writes one byte
+// through the writer it is handed and propagates the outcome"; the sink fails where the instance says.
+pub(crate) struct FaultySink { fail_seek: bool, fail_write: bool, accepted: usize }
+impl std::io::Write for FaultySink {
+    fn write(&mut self, buf: &[u8]) -> std::io::Result<usize> {
+        if self.fail_write { return Err(std::io::Error::from(std::io::ErrorKind::Other)); }
+        self.accepted += buf.len();
+        Ok(buf.len())
+    }
+    fn flush(&mut self) -> std::io::Result<()> { Ok(()) }
+}
+impl std::io::Seek for FaultySink {
+    fn seek(&mut self, _pos: std::io::SeekFrom) -> std::io::Result<u64> {
+        if self.fail_seek { Err(std::io::Error::from(std::io::ErrorKind::Other)) } else { Ok(0) }
+    }
+}
+fn stub_write_blocks_one_byte<B: crate::metadata::AsBlockRef>(mut w: impl std::io::Write, _blocks: impl IntoIterator<Item = B>) -> Result<(), Error> {
+    G_F_WRITES.fetch_add(1, Relaxed);
+    match w.write(&[0x66]) {
+        Ok(_) => Ok(()),
+        Err(e) => Err(Error::Io(e)),
+    }
+}
+
+macro_rules! k_encoder_finalize_fault {
+    ($name:ident, $fail_seek:expr, $fail_write:expr) => {
+#[kani::proof]
+#[kani::unwind(18)]
+#[kani::stub(crate::metadata::write_blocks, stub_write_blocks_one_byte)]
+#[kani::stub(md5::Context::finalize, stub_md5_finalize)]
+pub(crate) fn $name() {
+    // fault position concrete per instance (symbolic: 15 min timeout)
+    let fail_seek: bool = $fail_seek;
+    let fail_write: bool = $fail_write;
+    let si = Streaminfo { minimum_block_size: 16, maximum_block_size: 16, minimum_frame_size: None, maximum_frame_size: None,
+        sample_rate: 44100, channels: NonZero::new(1).unwrap(), bits_per_sample: sbc::<32>(16), total_samples: None, md5: None };
+    let mut e = Encoder { writer: Counter::new(FaultySink { fail_seek, fail_write, accepted: 0 }), start: 0, options: EncoderOptions { max_partition_order: 0, mid_side: false,
+        seektable_interval: None, max_lpc_order: None, window: Window::Rectangle, exhaustive_channel_correlation: false, use_rice2: false },
+        caches: EncodingCaches::default(), blocks: BlockList::new(si), sample_rate: SampleRate::Hz44100, frame_number: FrameNumber(1),
+        samples_written: 16, seekpoints: Vec::new(), md5: md5::Context::new(), finalized: false };
+    let res = e.finalize_inner();
+    let ok = res.is_ok();
+    std::mem::forget(res);
+    vk_assert!(ok == (!fail_seek && !fail_write), "finalize reports success exactly when the stream was repositioned and the sink accepted the rewritten metadata");
+    if fail_seek { vk_assert!(G_F_WRITES.load(Relaxed) == 0, "nothing is written when repositioning failed"); }
+    if ok { vk_assert!(e.writer.stream().accepted == 1, "on success the rewritten metadata has reached the sink (not a buffer that is dropped)"); }
+}
+    };
+}
+k_encoder_finalize_fault!(k_encoder_finalize_fault_none, false, false);
+k_encoder_finalize_fault!(k_encoder_finalize_fault_seek, true, false);
+k_encoder_finalize_fault!(k_encoder_finalize_fault_write, false, true);
+
 // ------------------------------------------------------------------ Encoder::finalize_inner: the three seek-table layouts (C09)
 // contract, with two frames written (seek points p0 < p1, symbolic byte offsets) and the policy "every frame":
 //   (a) placeholder table of 3 points reserved up front: still 3 points, the first two are p0, p1 as defined points, the
@@ -1118,3 +1182,6 @@ k_frontend_new_declared_totals!(k_frontend_new_samples_2ch, false, 2, 24);
 k_frontend_new_declared_totals!(k_frontend_new_samples_0ch, false, 0, 24);
 k_frontend_new_declared_totals!(k_frontend_new_bps33, false, 2, 33);
 k_frontend_new_declared_totals!(k_frontend_new_bps0, true, 2, 0);
+
+// FlacStreamWriter::write with more than 65535 samples per channel (InvalidBlockSize): built with a shape-only frame stub and removed --
+// everything behind Frame::resize runs CBMC out of memory even for a concrete length (same wall as the mono instances above).
